@@ -29,7 +29,7 @@ def run(chk, tier):
     chk.floor("R20.2", "call-argument collecting arms", len(collectors), 2)
     out, unc, nb, nc = panic_edges.census(F, ("rscel-to-sql",))
     import json, os
-    table = json.load(open(os.path.join(lib.VERIF, "tables", "panic_sites.json")))["rows"]
+    table = panic_edges.load_table()
     for (bp, sig), sites in sorted(out.items()):
         if "_serde::Serialize for" in bp:
             continue
